@@ -12,6 +12,8 @@ macro_rules! s3_error {
     ($code:ident) => { crate::error::S3Error::new(crate::error::S3ErrorCode::$code) };
     ($code:ident, $($arg:tt)+) => { crate::error::S3Error::new(crate::error::S3ErrorCode::$code) };
 }
+/// futures::pin_mut!: shadows the variable with a pinned mutable reference to it; here: makes the binding mutable
+macro_rules! pin_mut { ($x:ident) => { let mut $x = $x; }; }
 macro_rules! invalid_request {
     ($($arg:tt)+) => { crate::error::S3Error::new(crate::error::S3ErrorCode::InvalidRequest) };
 }
@@ -165,6 +167,24 @@ pub mod multipart {
 //@@ extract field_value_stmt file=crates/s3s/src/http/multipart.rs item="fn try_parse" from="let value = match lines.split_to(pat_without_crlf) {" until="fields.push((content_disposition.name.to_owned(), value.to_owned()));"
         Ok(Ok((content_disposition.name.to_owned(), value.to_owned())))
     }
+}
+
+// ---- stream::aggregate_unlimited: collects the file part for the object write ----------------------------------------------
+pub mod stream {
+    use vstd::prelude::*;
+    pub struct Bytes { pub o: u64 }
+    /// stream::ByteStream (+ StreamExt::next): a stream with its future items as a ghost sequence
+    pub trait ByteStream {
+        type Item;
+        spec fn rest(&self) -> Seq<Self::Item>;
+        fn next(&mut self) -> (r: Option<Self::Item>)
+            ensures
+                old(self).rest().len() == 0 ==> r is None && final(self).rest() == old(self).rest(),
+                old(self).rest().len() > 0 ==> r == Some(old(self).rest()[0]) && final(self).rest() == old(self).rest().skip(1);
+    }
+    pub open spec fn all_ok<E>(s: Seq<Result<Bytes, E>>) -> bool { forall|i: int| 0 <= i < s.len() ==> (#[trigger] s[i]) is Ok }
+    pub open spec fn values<E>(s: Seq<Result<Bytes, E>>) -> Seq<Bytes> { s.map_values(|r: Result<Bytes, E>| r->Ok_0) }
+//@@ extract aggregate_unlimited file=crates/s3s/src/stream.rs item="fn aggregate_unlimited" rewrites=attr,async,ret,pubcrate
 }
 
 /// the clauses of the statement no code evaluates (uninterpreted: nothing can establish them)
